@@ -38,6 +38,12 @@ CHECKS = {
     'C11': dict(cat='proof', tech='Coq proof over the translated kernel and the model layer + probe correspondence', ref='DESIGN.md section 6, C11',
                 text='Theorems: the kernel regenerated from backup.hpp on every run (loop with early return) returns the default with no backend query when some component is outside the closed box and queries the backend at the unchanged coordinate otherwise, for every integer coordinate type of 32..64 bits and every N (backup_at_refines); the model layer over an arbitrary backend and any order has the empty trace outside and is the backend inside (backup_outside / backup_inside / outside_spec); the kernel\'s test is the model\'s test on integer types. Tie: the layer over a recording probe backend for N, M in 1..4 independently and five coordinate types, at each bound, one step either side (nextafter), signed zeros, extremes, empty boxes, judged by an independent oracle (default and NO query / exactly one query at the coordinate) and the model; over array storage under ASan.',
                 note=TB_KERNEL + ' Floating coordinates are covered by the model layer and the correspondence, not by the translated kernel (CKernel has integer types only).' + AX_REALS),
+    'C13': dict(cat='proof', tech='Coq proof of kind soundness of the model + compile-acceptance correspondence (partial)', ref='DESIGN.md section 6, C13',
+                text='PARTIAL. Proved (StackSound.v, any scalar arithmetic, stacks of any depth): kinds compose layer by layer and the reference interpreter is kind-sound -- a lookup through a well-kinded stack with well-shaped configurations at a coordinate of k_n components returns exactly k_m components, so no layer is ever handed data of the wrong dimension; the model rejects a catalogue of ill-kinded compositions. Observed, not proved: g++ -std=c++20 accepts the whole-API instantiation (parameter-pack and make_parameter_pack_for construction, view, both at() forms, write, configuration chain, dump, load, copy/move construction and assignment, trivially copyable view, backend concept) of every enumerated well-kinded stack (pairwise layer adjacency over every primitive and storage order, catalogue, seeded random stacks to depth 5) and of the compatible-stack conversions, and rejects a catalogue violating each stated kind (every static_assert and concept constraint of the layers and of field_view), with a well-kinded control.',
+                note='No semantics of C++ templates, overload resolution or concepts exists in this development: compiler acceptance is an observation on the enumerated programs with g++ 12.2 only. CUDA backends are not compiled (no toolkit). ' + TB_MODEL + ' The theorem is closed under the global context.'),
+    'C17': dict(cat='proof', tech='Coq proof on the construction/read-back model + correspondence through the real constructors to depth 10', ref='DESIGN.md section 6, C17',
+                text='Theorems (StackGlueProofs.v, stacks of any depth): constructing from per-layer configurations (outermost first, then the primitive) and reading them back are inverse (configs_of_constructed, rebuild_from_configs), the i-th group read back belongs to the i-th layer from the outside and the groups cover everything. Tie: stacks of depth 1..10 made of layers with same-typed pairwise distinct configurations are built through make_parameter_pack_for and through (configuration, backend) constructors; every configuration is read back through get_configuration() and the get_backend() chain and must equal what was passed in order (independent oracle: the generated tokens); a second field rebuilt from what is reported must have identical configurations, storage, dump bytes and values at sampled coordinates; all compared with the model.',
+                note='The ten generated make_parameter_pack_for overloads are exercised at every depth 1..10, not translated. ' + TB_MODEL + ' Theorems closed under the global context.'),
     'C06': dict(cat='proof', tech='Coq proof on a hand model of the byte format + byte-exact correspondence', ref='DESIGN.md section 6, C06',
                 text='Theorems (BinIOProofs.v) for every stack of the layer grammar and every well-formed field, all bit patterns: the reader inverts the writer with any bytes following (load_dump), re-dumping the loaded field gives the same bytes (dump_load_dump), every well-formed field is serialisable (dump_total). The model writer/reader (BinIO.v) is tied to field::dump / field(std::istream&) and every layer\'s read_binary / write_binary byte for byte: for each stack of the catalogue (every serialisable layer in several positions + seeded random stacks) the implementation\'s dump must equal the model\'s bytes, its load must yield the model\'s configuration and storage, and its second dump the same bytes.',
                 note='BinIO.v, Stack.v, StackGlue.v are hand-written. ' + TB_MODEL + AX_REALS),
